@@ -7,10 +7,20 @@ import (
 	"golang.org/x/tools/go/ssa"
 )
 
+var serveExplain = map[string]string{
+	"C02": "Structural necessary conditions in the server's per-connection loop, decided for every path of the loop by exhaustive exploration of a finite abstraction (booleans, nil-ness, rule event bits): (R1) a request with 'Expect: 100-continue' whose body was not read (ExpectHandler / ContinueHandler rejection) is answered with Connection: close and never followed by another iteration; (R2) on every path from the handler to the next iteration the code has established, on the request that was actually served (not on a ctx swapped in by the timeout path), that there is no connection-backed body stream or that requestStream.fullyRead() is true - otherwise the close decision is true; the stream object is only released after that. Not decided: the exact byte offset at which the next request starts for all inputs; the multipart pre-parse drain (R3, see DESIGN).",
+	"C10": "Structural necessary conditions of the keep-alive decision in the serve loop: (R1) the condition guarding SetConnectionClose depends (through phis, && / ||, and helper functions) on each documented source: DisableKeepalive, request and response Connection: close, MaxRequestsPerConn, CloseOnShutdown+stop, Expect/Continue rejection, unread streamed body; (R2) on every path: decision true => Connection: close is set on the response object that is written and no further iteration follows; decision false on a non-HTTP/1.1 request => Connection: keep-alive is set; (R3) the decision does not read per-request bookkeeping from a ctx that was swapped in after the handler (timeout path). Not decided: token/case handling of the Connection header value, client side reuse.",
+	"C11": "Structural necessary conditions of 'no state leaks between requests': (E7) every leaf field of Request, Response, RequestHeader, ResponseHeader, URI, Args, Cookie and RequestCtx is assigned (or known nil, or reset through its pointee) on every path of the type's reset method including callees, or is in a table of reasoned exemptions (scratch buffers, configuration, self pointers) - a newly added field is a violation until reset or exempted; (R-loop) every variable of the serve loop that survives an iteration is re-assigned before it is read in a later iteration on every path, or the loop provably ends; (R-reset) every path from the handler to the next iteration passes Request.Reset and Response.Reset. Not decided: that getters return exactly what the current request sent.",
+	"C14": "The sequence of ConnState values the serve loop reports, decided on every path of the loop as an automaton: StateActive only follows New/Idle, StateIdle only follows Active, the handler and the response write happen in Active, an iteration that continues ends in Idle, and StateActive is only reported on a path on which a read of at least one byte succeeded. Not decided: the New/Closed/Hijacked reports of the callers (worker pool, ServeConn) and cross-goroutine ordering.",
+	"C15": "Structural necessary conditions of graceful shutdown inside the serve loop, on every path: the per-connection idle marker is zero while the handler runs (so Shutdown's idle closer cannot close a busy connection), it is set non-zero after the response before the connection waits for the next request, and the stop flag is tested after every response. Not decided: Shutdown's own listener/poll loop, liveness, interleavings.",
+	"C16": "Structural necessary conditions for timed-out handlers, on every path of the serve loop's timeoutResponse != nil branch: the response is written from a freshly acquired ctx into which the stored response was copied (R1); the timed-out ctx is never released to the pool by the loop (R2); no per-request field the loop stored on the old ctx is read from the fresh one (R3). Not decided: what the late handler does with the old ctx, scheduling.",
+	"C17": "Structural necessary conditions of connection hijacking, on every path: the response is written and flushed before the hand-off unless HijackSetNoResponse is in effect (R1); after 'go hijackConnHandler' the serve function performs no I/O on the connection and releases neither ctx nor the handed-over reader (R3); it returns errHijacked exactly on hand-off paths (R4); hijackConnHandler closes the connection after the user's handler unless KeepHijackedConns and releases the ctx (R5). Not decided: byte-exact hand-over of buffered data, callers' reaction to errHijacked.",
+}
+
 func init() {
 	for _, id := range []string{"C02", "C10", "C11", "C14", "C15", "C16", "C17"} {
 		id := id
-		register(&propDef{id: id, explain: "serve-loop obligations (work in progress)", run: func(p *Prog, r *Report) {
+		register(&propDef{id: id, explain: serveExplain[id], run: func(p *Prog, r *Report) {
 			p.serveLoop(id).report(r, id)
 			if id == "C17" {
 				hijackHandlerRule(p, r)
